@@ -449,19 +449,37 @@ pub fn run(reg: &dyn Registry, ctx: &Ctx) -> Outcome {
             unsafe impl Sync for Shared {}
             let shared = Shared(states);
             let states = &shared;
+            // wall budget: a comparison that has become much slower than the crate's (e.g. one without early
+            // exit) must not turn this all-pairs sweep into hours; a cut sweep is reported as a cap, with the
+            // pairs actually compared
+            let budget = std::time::Duration::from_secs(if thorough { 3600 } else { 240 });
+            let started = std::time::Instant::now();
+            let done_pairs = std::sync::atomic::AtomicU64::new(0);
+            let expired = std::sync::atomic::AtomicBool::new(false);
             let hits: Vec<(usize, usize)> = (0..n)
                 .into_par_iter()
                 .flat_map_iter(|i| {
                     let mut v = Vec::new();
+                    if expired.load(std::sync::atomic::Ordering::Relaxed) {
+                        return v.into_iter();
+                    }
+                    if i % 64 == 0 && started.elapsed() > budget {
+                        expired.store(true, std::sync::atomic::Ordering::Relaxed);
+                        return v.into_iter();
+                    }
                     for j in i + 1..n {
                         if states.0[i].eq_dyn(states.0[j].as_ref()) == Some(true) {
                             v.push((i, j));
                         }
                     }
+                    done_pairs.fetch_add((n - i - 1) as u64, std::sync::atomic::Ordering::Relaxed);
                     v.into_iter()
                 })
                 .collect();
-            ctx.add("pairs_compared", (n as u64) * (n as u64 - 1) / 2);
+            if expired.load(std::sync::atomic::Ordering::Relaxed) {
+                ctx.cap_hit(&format!("{}: the all-pairs comparison of {} states was cut after {} s ({} of {} pairs compared)", info.name, n, budget.as_secs(), done_pairs.load(std::sync::atomic::Ordering::Relaxed), (n as u64) * (n as u64 - 1) / 2));
+            }
+            ctx.add("pairs_compared", done_pairs.load(std::sync::atomic::Ordering::Relaxed));
             ctx.add("large_pair_set_states", n as u64);
             for (i, j) in hits.into_iter().take(3) {
                 let mut a = states.0[i].clone_box();
